@@ -613,3 +613,457 @@ Proof.
     + left. split; [exact Hs|lia].
     + right. right. left. split; [exact Hs|lia].
 Qed.
+
+(* ------------------------------------------------ the length-delimited parts *)
+Lemma locate_ok hdr frame wl wd c al : upd_locate hdr frame = Ok (wl, wd, c, al) ->
+  locate frame = Some (wd, firstn (nat_of al) c, skipn (nat_of al) c).
+Proof.
+  unfold upd_locate, locate.
+  destruct (len frame <? 23) eqn:E23; [discriminate|].
+  pose proof (len_skipn 19 frame) as Hs.
+  destruct (skipn 19 frame) as [|w1 [|w2 r]]; try (rewrite ?len_cons, ?len_nil in Hs; lia).
+  cbn [get16 must bind]. rewrite !len_cons in Hs.
+  destruct (len frame <? be16 w1 w2 + 23) eqn:Ewl; [discriminate|].
+  assert (E1 : (len r <? be16 w1 w2 + 2) = false) by lia. rewrite E1.
+  pose proof (len_skipn (nat_of (be16 w1 w2)) r) as Hs2. unfold nat_of in *.
+  destruct (skipn (N.to_nat (be16 w1 w2)) r) as [|a1 [|a2 r2]]; cbn [get16 rm req bind]; try discriminate.
+  rewrite !len_cons in Hs2.
+  destruct (len frame <? be16 w1 w2 + be16 a1 a2 + 23) eqn:Eal; [discriminate|].
+  assert (E2 : (len r2 <? be16 a1 a2) = false) by lia. rewrite E2.
+  intro H. injection H as <- <- <- <-. reflexivity.
+Qed.
+
+Lemma locate_fail hdr frame e : upd_locate hdr frame = Fail e -> locate frame = None.
+Proof.
+  unfold upd_locate, locate.
+  destruct (len frame <? 23) eqn:E23; [reflexivity|].
+  pose proof (len_skipn 19 frame) as Hs.
+  destruct (skipn 19 frame) as [|w1 [|w2 r]]; try (rewrite ?len_cons, ?len_nil in Hs; lia).
+  cbn [get16 must bind]. rewrite !len_cons in Hs.
+  destruct (len frame <? be16 w1 w2 + 23) eqn:Ewl.
+  { assert (E1 : (len r <? be16 w1 w2 + 2) = true) by lia. rewrite E1. reflexivity. }
+  assert (E1 : (len r <? be16 w1 w2 + 2) = false) by lia. rewrite E1.
+  pose proof (len_skipn (nat_of (be16 w1 w2)) r) as Hs2. unfold nat_of in *.
+  destruct (skipn (N.to_nat (be16 w1 w2)) r) as [|a1 [|a2 r2]]; cbn [get16 rm req bind]; try reflexivity.
+  rewrite !len_cons in Hs2.
+  destruct (len frame <? be16 w1 w2 + be16 a1 a2 + 23) eqn:Eal; [|discriminate].
+  assert (E2 : (len r2 <? be16 a1 a2) = true) by lia. rewrite E2. reflexivity.
+Qed.
+
+(* ------------------------------------------------ NLRI fields *)
+Definition field_parse (cd : codec) (fam : N) (r : bool) (b : list N) : res (list (N * nlri)) :=
+  ap <- req MAL (fam_lookup (c_fams cd) fam) ;; nlri_list no_other fam ap r b.
+
+Lemma no_other_consumes : forall f r c c', no_other f r c = Some c' -> len c' < len c.
+Proof. intros; discriminate. Qed.
+
+Lemma field_ok cd fam r b l : field_parse cd fam r b = Ok l -> nlri_field cd fam r b = Some (keys fam l).
+Proof.
+  unfold field_parse, nlri_field. destruct (fam_lookup (c_fams cd) fam) as [ap|]; cbn [req bind]; [|discriminate].
+  change (fun (_ : N) (_ : bool) (_ : list N) => @None (list N)) with no_other.
+  intro H. rewrite H. reflexivity.
+Qed.
+
+Lemma field_fail cd fam r b e : field_parse cd fam r b = Fail e -> nlri_field cd fam r b = None.
+Proof.
+  unfold field_parse, nlri_field. destruct (fam_lookup (c_fams cd) fam) as [ap|]; cbn [req bind]; [|reflexivity].
+  change (fun (_ : N) (_ : bool) (_ : list N) => @None (list N)) with no_other.
+  intro H. rewrite H. reflexivity.
+Qed.
+
+Lemma get8_skipn : forall n (r : list N) x d2, get8 (skipn n r) = Some (x, d2) -> d2 = skipn (n + 1) r.
+Proof.
+  induction n as [|n IH]; intros r x d2 H.
+  - destruct r; [discriminate|]. injection H as _ <-. reflexivity.
+  - destruct r as [|y r]; [discriminate|]. cbn [skipn] in H. replace (S n + 1)%nat with (S (n + 1)) by lia.
+    cbn [skipn]. eapply IH; eassumption.
+Qed.
+
+Lemma mp_reach_ok cd d fam entries nh :
+  upd_mp_reach no_other cd d = Ok (fam, entries, nh) -> mp_reach_keys cd d = Some (keys fam entries).
+Proof.
+  unfold upd_mp_reach, mp_reach_keys.
+  destruct (len d <? 5) eqn:E5; [discriminate|].
+  destruct d as [|d1 [|d2 [|d3 [|d4 r]]]]; try (rewrite ?len_cons, ?len_nil in E5; lia).
+  cbn [get16 get8 must bind]. rewrite !len_cons.
+  destruct (fam_lookup (c_fams cd) (be16 d1 d2 * 65536 + d3)) as [ap|] eqn:Ef; cbn [req bind]; [|discriminate].
+  destruct (len r + 1 + 1 + 1 + 1 <? 5 + d4) eqn:En; [discriminate|].
+  assert (E1 : (len r <? d4 + 1) = false) by lia. rewrite E1.
+  intro H. apply bind_ok in H. destruct H as (nh' & Hnh & H).
+  assert (E2 : negb (existsb (N.eqb d4) [4; 16; 32; 12; 24]) && negb ((d4 =? 0) && is_flowspec (be16 d1 d2 * 65536 + d3)) = false).
+  { cbn [existsb]. destruct (d4 =? 0) eqn:E0.
+    - destruct (is_flowspec _); [apply andb_false_r|discriminate].
+    - cbn [andb negb]. rewrite andb_true_r.
+      destruct ((d4 =? 4) || (d4 =? 16) || (d4 =? 32)) eqn:Ea; [lia|].
+      destruct ((d4 =? 12) || (d4 =? 24)) eqn:Eb; [lia|discriminate]. }
+  rewrite E2.
+  destruct (get8 (skipn (nat_of d4) r)) as [[rsv d5]|] eqn:G; cbn [must bind] in H; [|discriminate].
+  apply get8_skipn in G. subst d5.
+  apply bind_ok in H. destruct H as (en & Hen & H). injection H as <- <- <-.
+  unfold nlri_field. rewrite Ef.
+  change (fun (_ : N) (_ : bool) (_ : list N) => @None (list N)) with no_other.
+  unfold nat_of in Hen. rewrite Hen. reflexivity.
+Qed.
+
+Lemma mp_reach_fail cd d e : upd_mp_reach no_other cd d = Fail e -> mp_reach_keys cd d = None.
+Proof.
+  unfold upd_mp_reach, mp_reach_keys.
+  destruct (len d <? 5) eqn:E5.
+  { intros _. destruct d as [|d1 [|d2 [|d3 [|d4 r]]]]; try reflexivity.
+    rewrite !len_cons in E5. assert (E1 : (len r <? d4 + 1) = true) by lia. rewrite E1. reflexivity. }
+  destruct d as [|d1 [|d2 [|d3 [|d4 r]]]]; try (rewrite ?len_cons, ?len_nil in E5; lia).
+  cbn [get16 get8 must bind]. rewrite !len_cons.
+  destruct (len r <? d4 + 1) eqn:E1; [reflexivity|].
+  destruct (negb (existsb (N.eqb d4) [4; 16; 32; 12; 24]) && negb ((d4 =? 0) && is_flowspec (be16 d1 d2 * 65536 + d3))) eqn:E2;
+    [reflexivity|].
+  unfold nlri_field.
+  destruct (fam_lookup (c_fams cd) (be16 d1 d2 * 65536 + d3)) as [ap|] eqn:Ef; cbn [req bind]; [|reflexivity].
+  assert (En : (len r + 1 + 1 + 1 + 1 <? 5 + d4) = false) by lia. rewrite En.
+  assert (Hnh : exists nh, (if d4 =? 0 then if is_flowspec (be16 d1 d2 * 65536 + d3) then Ok None else Fail E_OPT_ATTR
+           else if (d4 =? 4) || (d4 =? 16) || (d4 =? 32) then Ok (nexthop_norm (firstn (nat_of d4) r))
+           else if (d4 =? 12) || (d4 =? 24) then Ok (nexthop_norm (skipn 8 (firstn (nat_of d4) r)))
+           else Fail E_OPT_ATTR) = Ok nh).
+  { cbn [existsb] in E2. destruct (d4 =? 0) eqn:E0.
+    - destruct (is_flowspec _); [eexists; reflexivity|].
+      exfalso. assert (d4 = 0) by lia. subst d4. discriminate.
+    - destruct ((d4 =? 4) || (d4 =? 16) || (d4 =? 32)) eqn:Ea; [eexists; reflexivity|].
+      destruct ((d4 =? 12) || (d4 =? 24)) eqn:Eb; [eexists; reflexivity|].
+      exfalso. cbn [andb negb] in E2. rewrite andb_true_r in E2. apply negb_false_iff in E2. lia. }
+  destruct Hnh as (nh & ->). cbn [bind].
+  destruct (get8 (skipn (nat_of d4) r)) as [[rsv d5]|] eqn:G; cbn [must bind]; [|discriminate].
+  apply get8_skipn in G. subst d5.
+  change (fun (_ : N) (_ : bool) (_ : list N) => @None (list N)) with no_other.
+  unfold nat_of. destruct (nlri_list no_other _ ap true _) as [l| |]; cbn [bind]; try discriminate. reflexivity.
+Qed.
+
+Lemma mp_unreach_ok cd d fam entries :
+  upd_mp_unreach no_other cd d = Ok (fam, entries) -> mp_unreach_keys cd d = Some (keys fam entries).
+Proof.
+  unfold upd_mp_unreach, mp_unreach_keys.
+  destruct (len d <? 3) eqn:E3; [discriminate|].
+  destruct d as [|d1 [|d2 [|d3 r]]]; try (rewrite ?len_cons, ?len_nil in E3; lia).
+  cbn [get16 get8 must bind]. intro H. unfold nlri_field.
+  destruct (fam_lookup (c_fams cd) (be16 d1 d2 * 65536 + d3)) as [ap|]; cbn [req bind] in H; [|discriminate].
+  change (fun (_ : N) (_ : bool) (_ : list N) => @None (list N)) with no_other.
+  destruct (nlri_list no_other _ ap false r) as [l| |]; cbn [bind] in H; try discriminate.
+  injection H as <- <-. reflexivity.
+Qed.
+
+Lemma mp_unreach_fail cd d e : upd_mp_unreach no_other cd d = Fail e -> mp_unreach_keys cd d = None.
+Proof.
+  unfold upd_mp_unreach, mp_unreach_keys.
+  destruct (len d <? 3) eqn:E3.
+  { intros _. destruct d as [|d1 [|d2 [|d3 r]]]; try reflexivity. rewrite !len_cons in E3. lia. }
+  destruct d as [|d1 [|d2 [|d3 r]]]; try (rewrite ?len_cons, ?len_nil in E3; lia).
+  cbn [get16 get8 must bind]. intro H. unfold nlri_field.
+  destruct (fam_lookup (c_fams cd) (be16 d1 d2 * 65536 + d3)) as [ap|]; cbn [req bind] in H; [|reflexivity].
+  change (fun (_ : N) (_ : bool) (_ : list N) => @None (list N)) with no_other.
+  destruct (nlri_list no_other _ ap false r) as [l| |]; cbn [bind] in H; try discriminate; reflexivity.
+Qed.
+
+(* ------------------------------------------------ the verdict in terms of the scan *)
+Definition verdict_of (tb : bool) (tl : list tlv) (ok : bool) (a1 w1 a2 w2 : list key) : verdict :=
+  let cl := classify_all tb [] tl in
+  let bad := filter (fun x => is_bad (snd x)) cl in
+  {| v_locatable := true;
+     v_must_withdraw :=
+       negb ok
+       || existsb (fun x => negb (may_discard (t_code (fst x)))) bad
+       || (negb (is_nil_b (a1 ++ a2)) &&
+           (negb (has_tlv 1 tl) || negb (has_tlv 2 tl) || (negb (is_nil_b a1) && negb (has_tlv 3 tl))));
+     v_discard := map (fun x => t_code (fst x)) bad;
+     v_announced := a1 ++ a2;
+     v_withdrawn := w1 ++ w2 |}.
+
+Definition judge_parts (cd : codec) (wd nl : list N) (tl : list tlv) (ok : bool) : verdict :=
+  if Nat.ltb 1 (count_code 14 tl) || Nat.ltb 1 (count_code 15 tl) then unlocatable else
+  match (if is_nil_b nl then Some [] else nlri_field cd F_IPV4 true nl),
+        (if is_nil_b wd then Some [] else nlri_field cd F_IPV4 false wd),
+        (match first_code 14 tl with None => Some [] | Some t => mp_reach_keys cd (t_val t) end),
+        (match first_code 15 tl with None => Some [] | Some t => mp_unreach_keys cd (t_val t) end) with
+  | Some a1, Some w1, Some a2, Some w2 => verdict_of (c_two_byte cd) tl ok a1 w1 a2 w2
+  | _, _, _, _ => unlocatable
+  end.
+
+Lemma judge_cases cd hdr frame wl wd c al :
+  upd_locate hdr frame = Ok (wl, wd, c, al) ->
+  judge cd frame =
+  judge_parts cd wd (skipn (nat_of al) c)
+              (fst (tlv_scan (S (length c)) (firstn (nat_of al) c)))
+              (snd (tlv_scan (S (length c)) (firstn (nat_of al) c))).
+Proof.
+  intro Hl. unfold judge. rewrite (locate_ok _ _ _ _ _ _ Hl).
+  set (block := firstn (nat_of al) c).
+  assert (Hb : (length block <= length c)%nat) by (subst block; rewrite firstn_length; lia).
+  rewrite tlv_walk_scan, (tlv_prefix_scan (S (length block)) block) by lia.
+  rewrite (tlv_scan_fuel (S (length block)) (S (length c)) block) by lia.
+  destruct (tlv_scan (S (length c)) block) as [tl ok]. cbn [fst snd].
+  unfold judge_parts, verdict_of, has_tlv.
+  destruct ok; reflexivity.
+Qed.
+
+(* ------------------------------------------------ the stages of a successful parse *)
+Lemma unreach_stage cd wl wd : length wd = nat_of wl ->
+  (ap <- req MAL (fam_lookup (c_fams cd) F_IPV4) ;;
+   if Nat.ltb (length wd) (nat_of wl) then Panic 21 else nlri_list no_other F_IPV4 ap false wd)
+  = field_parse cd F_IPV4 false wd.
+Proof.
+  intro H. unfold field_parse. destruct (fam_lookup (c_fams cd) F_IPV4); cbn [req bind]; [|reflexivity].
+  rewrite H, PeanoNat.Nat.ltb_irrefl. reflexivity.
+Qed.
+
+Definition mp_stage {A} (f : list N -> res A) (d : option (list N)) (r : option A) : Prop :=
+  match d with
+  | None => r = None
+  | Some v => exists x, f v = Ok x /\ r = Some x
+  end.
+
+Lemma parse_update_ok_inv cd hdr frame u : parse_update no_other cd hdr frame = Ok u ->
+  exists wl wd c al s arem,
+    upd_locate hdr frame = Ok (wl, wd, c, al) /\
+    attr_loop (S (length c)) (c_two_byte cd) c al u0 = Ok (s, arem) /\
+    (((len frame - (23 + wl + al) =? 0) && (al =? 0) && (wl =? 0) = true /\ u = UEor F_IPV4) \/
+     ((len frame - (23 + wl + al) =? 0) && (al =? 0) && (wl =? 0) = false /\
+      exists reach unreach mpr mpu,
+        (if negb (len frame - (23 + wl + al) =? 0) then field_parse cd F_IPV4 true (skipn (nat_of al) c) else Ok []) = Ok reach /\
+        (if 0 <? wl then field_parse cd F_IPV4 false wd else Ok []) = Ok unreach /\
+        mp_stage (upd_mp_reach no_other cd) (u_mp_reach (post_errs (len frame - (23 + wl + al)) arem s)) mpr /\
+        mp_stage (upd_mp_unreach no_other cd) (u_mp_unreach (post_errs (len frame - (23 + wl + al)) arem s)) mpu /\
+        upd_finish cd (post_errs (len frame - (23 + wl + al)) arem s) reach unreach mpr mpu = Ok u)).
+Proof.
+  intro H. unfold parse_update in H.
+  apply bind_ok in H. destruct H as ([[[wl wd] c] al] & Hloc & H).
+  destruct (proj2 (upd_locate_spec no_other no_other_consumes hdr frame) _ _ _ _ Hloc) as (Hal & Hwd & Hlen).
+  apply bind_ok in H. destruct H as ([s arem] & Hloop & H).
+  exists wl, wd, c, al, s, arem. split; [exact Hloc|]. split; [exact Hloop|].
+  destruct ((len frame - (23 + wl + al) =? 0) && (al =? 0) && (wl =? 0)) eqn:Eeor.
+  { left. split; [reflexivity|]. injection H as <-. reflexivity. }
+  right. split; [reflexivity|].
+  apply bind_ok in H. destruct H as (reach & Hr & H).
+  apply bind_ok in H. destruct H as (unreach & Hu & H).
+  apply bind_ok in H. destruct H as (mpr & Hmr & H).
+  apply bind_ok in H. destruct H as (mpu & Hmu & H).
+  exists reach, unreach, mpr, mpu.
+  split; [exact Hr|]. split.
+  { destruct (0 <? wl); [|exact Hu]. rewrite <- (unreach_stage cd wl wd Hwd). exact Hu. }
+  split.
+  { unfold mp_stage. destruct (u_mp_reach _) as [d|]; [|injection Hmr as <-; reflexivity].
+    apply bind_ok in Hmr. destruct Hmr as (x & Hx & Hm). injection Hm as <-. eauto. }
+  split; [|exact H].
+  unfold mp_stage. destruct (u_mp_unreach _) as [d|]; [|injection Hmu as <-; reflexivity].
+  apply bind_ok in Hmu. destruct Hmu as (x & Hx & Hm). injection Hm as <-. eauto.
+Qed.
+
+Lemma upd_finish_routes cd s reach unreach mpr mpu r' mr' ur' mur' attrs errs :
+  upd_finish cd s reach unreach mpr mpu = Ok (URoutes r' mr' ur' mur' attrs errs) ->
+  errs = u_errs s /\
+  r' = (if is_nil reach then None else Some (F_IPV4, reach, u_nexthop s)) /\
+  mr' = (if match mpr with None => true | Some (_, e, _) => is_nil e end then None else mpr) /\
+  ur' = (if is_nil unreach then None else Some (F_IPV4, unreach)) /\
+  (mur' = None \/ mur' = mpu).
+Proof.
+  unfold upd_finish. intro H.
+  destruct mpu as [[fam [|e es]]|].
+  - destruct (_ && _); [discriminate|].
+    apply bind_ok in H. destruct H as (a & _ & H). injection H as <- <- <- <- _ <-. repeat split; auto.
+  - apply bind_ok in H. destruct H as (a & _ & H). injection H as <- <- <- <- _ <-. repeat split; auto.
+  - apply bind_ok in H. destruct H as (a & _ & H). injection H as <- <- <- <- _ <-. repeat split; auto.
+Qed.
+
+(* ---- the error bookkeeping after the walk *)
+Lemma post_errs_mono rl arem s :
+  existsb err_fatal (u_errs s) = true -> existsb err_fatal (u_errs (post_errs rl arem s)) = true.
+Proof.
+  intro H. unfold post_errs.
+  repeat match goal with |- context [if ?b then _ else _] => destruct b end;
+    cbn [u_errs add_err]; rewrite ?existsb_app, H; reflexivity.
+Qed.
+
+Lemma post_errs_arem rl arem s : arem <> 0 -> existsb err_fatal (u_errs (post_errs rl arem s)) = true.
+Proof.
+  intro H. unfold post_errs. destruct (negb (arem =? 0)) eqn:E; [|lia].
+  cbn [u_errs add_err]. rewrite existsb_snoc. apply orb_true_r.
+Qed.
+
+Lemma post_errs_origin rl arem s :
+  negb (rl =? 0) || (match u_mp_reach s with Some _ => true | None => false end) = true ->
+  negb (seen s 1) || negb (seen s 2) = true ->
+  existsb err_fatal (u_errs (post_errs rl arem s)) = true.
+Proof.
+  intros H1 H2. unfold post_errs. rewrite H1, H2.
+  assert (E1 : existsb err_fatal [(1, 64)] = true) by reflexivity.
+  repeat match goal with |- context [if ?b then _ else _] => destruct b end;
+    cbn [u_errs add_err]; rewrite ?existsb_app, E1, orb_true_r; reflexivity.
+Qed.
+
+Lemma post_errs_nexthop rl arem s : u_nexthop (post_errs rl arem s) = u_nexthop s.
+Proof. unfold post_errs. repeat match goal with |- context [if ?b then _ else _] => destruct b end; reflexivity. Qed.
+Lemma post_errs_mp_reach rl arem s : u_mp_reach (post_errs rl arem s) = u_mp_reach s.
+Proof. unfold post_errs. repeat match goal with |- context [if ?b then _ else _] => destruct b end; reflexivity. Qed.
+Lemma post_errs_mp_unreach rl arem s : u_mp_unreach (post_errs rl arem s) = u_mp_unreach s.
+Proof. unfold post_errs. repeat match goal with |- context [if ?b then _ else _] => destruct b end; reflexivity. Qed.
+
+Lemma step_dup_none tb s t : seen s (t_code t) = true -> (t_code t = 14 \/ t_code t = 15) -> tlv_step tb s t = None.
+Proof.
+  intros Hs Hc. unfold tlv_step, attr_one. rewrite Hs.
+  assert (E : (t_code t =? 14) || (t_code t =? 15) = true) by lia. rewrite E. reflexivity.
+Qed.
+
+Lemma fold_some_count tb code : (code = 14 \/ code = 15) -> forall tl s s', tlv_fold tb s tl = Some s' ->
+  (seen s code = true -> count_code code tl = 0%nat) /\ (count_code code tl <= 1)%nat.
+Proof.
+  intros Hc. induction tl as [|t r IH]; intros s s' H; [split; [reflexivity|cbn; lia]|].
+  cbn [tlv_fold] in H. destruct (tlv_step tb s t) as [s1|] eqn:Est; [|discriminate].
+  destruct (IH s1 s' H) as [I1 I2]. unfold count_code in *. cbn [filter].
+  pose proof (step_seen _ _ _ _ Est code) as Hs1.
+  destruct (t_code t =? code) eqn:E.
+  - assert (Et : t_code t = code) by lia.
+    assert (Hns : seen s code = false).
+    { destruct (seen s code) eqn:Es; [|reflexivity]. rewrite step_dup_none in Est; [discriminate| |]; rewrite Et; assumption. }
+    rewrite (N.eqb_sym code), E in Hs1. cbn [orb] in Hs1. specialize (I1 Hs1).
+    cbn [length]. split; [congruence|lia].
+  - rewrite (N.eqb_sym code), E in Hs1. cbn [orb] in Hs1. split; [|exact I2].
+    intro Hs. apply I1. congruence.
+Qed.
+
+Definition mpk (m : option (N * list (N * nlri) * option (list N))) : list key :=
+  match m with None => [] | Some (f, e, _) => keys f e end.
+Definition mpuk (m : option (N * list (N * nlri))) : list key :=
+  match m with None => [] | Some (f, e) => keys f e end.
+
+Lemma is_nil_len (l : list N) : is_nil_b l = (len l =? 0).
+Proof. destruct l; [reflexivity|]. rewrite len_cons. cbn [is_nil_b]. symmetry. apply N.eqb_neq. lia. Qed.
+
+(* the agreement: on a successfully parsed (non end-of-RIB) UPDATE the Spec's verdict is the
+   one computed from the parser's own pieces *)
+Lemma judge_of_parse cd hdr frame wl wd c al s arem reach unreach mpr mpu :
+  upd_locate hdr frame = Ok (wl, wd, c, al) ->
+  attr_loop (S (length c)) (c_two_byte cd) c al u0 = Ok (s, arem) ->
+  (if negb (len frame - (23 + wl + al) =? 0) then field_parse cd F_IPV4 true (skipn (nat_of al) c) else Ok []) = Ok reach ->
+  (if 0 <? wl then field_parse cd F_IPV4 false wd else Ok []) = Ok unreach ->
+  mp_stage (upd_mp_reach no_other cd) (u_mp_reach s) mpr ->
+  mp_stage (upd_mp_unreach no_other cd) (u_mp_unreach s) mpu ->
+  exists tl ok,
+    tlv_fold (c_two_byte cd) u0 tl = Some s /\ (arem = 0 <-> ok = true) /\
+    judge cd frame = verdict_of (c_two_byte cd) tl ok (keys F_IPV4 reach) (keys F_IPV4 unreach) (mpk mpr) (mpuk mpu).
+Proof.
+  intros Hloc Hloop Hr Hu Hmr Hmu.
+  destruct (proj2 (upd_locate_spec no_other no_other_consumes hdr frame) _ _ _ _ Hloc) as (Hal & Hwd & Hlen).
+  pose proof (attr_loop_sim (c_two_byte cd) (S (length c)) c al u0 ltac:(lia) Hal) as Hsim.
+  rewrite (judge_cases _ _ _ _ _ _ _ Hloc). unfold nat_of in *.
+  destruct (tlv_scan (S (length c)) (firstn (N.to_nat al) c)) as [tl ok]. cbn [fst snd].
+  destruct (tlv_fold (c_two_byte cd) u0 tl) as [s'|] eqn:Efold; [|congruence].
+  destruct Hsim as (r & Hr' & Hok). rewrite Hloop in Hr'. injection Hr' as <- <-.
+  exists tl, ok. split; [exact Efold|]. split; [exact Hok|].
+  unfold judge_parts.
+  destruct (fold_some_count (c_two_byte cd) 14 (or_introl eq_refl) tl u0 s Efold) as [_ C14].
+  destruct (fold_some_count (c_two_byte cd) 15 (or_intror eq_refl) tl u0 s Efold) as [_ C15].
+  assert (Ed : Nat.ltb 1 (count_code 14 tl) || Nat.ltb 1 (count_code 15 tl) = false).
+  { apply orb_false_iff. split; apply PeanoNat.Nat.ltb_ge; assumption. }
+  rewrite Ed.
+  (* legacy NLRI *)
+  assert (L1 : (if is_nil_b (skipn (N.to_nat al) c) then Some [] else nlri_field cd F_IPV4 true (skipn (N.to_nat al) c))
+               = Some (keys F_IPV4 reach)).
+  { rewrite is_nil_len, len_skipn.
+    replace (len c - N.of_nat (N.to_nat al)) with (len frame - (23 + wl + al)) by lia.
+    destruct (len frame - (23 + wl + al) =? 0); cbn [negb] in Hr; [injection Hr as <-; reflexivity|].
+    apply field_ok. exact Hr. }
+  assert (L2 : (if is_nil_b wd then Some [] else nlri_field cd F_IPV4 false wd) = Some (keys F_IPV4 unreach)).
+  { rewrite is_nil_len. replace (len wd =? 0) with (negb (0 <? wl)) by (unfold len; lia).
+    destruct (0 <? wl); cbn [negb]; [apply field_ok; exact Hu|injection Hu as <-; reflexivity]. }
+  rewrite L1, L2.
+  rewrite (fold_mp_reach (c_two_byte cd) tl u0 s eq_refl eq_refl Efold) in Hmr.
+  rewrite (fold_mp_unreach (c_two_byte cd) tl u0 s eq_refl eq_refl Efold) in Hmu.
+  assert (L3 : match first_code 14 tl with None => Some [] | Some t => mp_reach_keys cd (t_val t) end = Some (mpk mpr)).
+  { destruct (first_code 14 tl) as [t|]; cbn [option_map mp_stage] in Hmr.
+    - destruct Hmr as ([[f e] nh] & Hx & ->). cbn [mpk]. eapply mp_reach_ok; eassumption.
+    - subst mpr. reflexivity. }
+  assert (L4 : match first_code 15 tl with None => Some [] | Some t => mp_unreach_keys cd (t_val t) end = Some (mpuk mpu)).
+  { destruct (first_code 15 tl) as [t|]; cbn [option_map mp_stage] in Hmu.
+    - destruct Hmu as ([f e] & Hx & ->). cbn [mpuk]. eapply mp_unreach_ok; eassumption.
+    - subst mpu. reflexivity. }
+  rewrite L3, L4. reflexivity.
+Qed.
+
+Lemma keys_nil_iff fam (l : list (N * nlri)) : is_nil_b (keys fam l) = is_nil l.
+Proof. destruct l; reflexivity. Qed.
+
+(* ------------------------------------------------ (A) Spec says withdraw => the parsed UPDATE is faulty *)
+Theorem C05_judge_faulty cd hdr frame reach mp_reach unreach mp_unreach attrs errs :
+  parse_update no_other cd hdr frame = Ok (URoutes reach mp_reach unreach mp_unreach attrs errs) ->
+  v_must_withdraw (judge cd frame) = true ->
+  existsb err_fatal errs = true \/ mandatory_missing reach mp_reach attrs = true.
+Proof.
+  intros Hp Hmw.
+  destruct (parse_update_ok_inv _ _ _ _ Hp)
+    as (wl & wd & c & al & s & arem & Hloc & Hloop &
+        [[_ Hu]|[Heor (reach0 & unreach0 & mpr & mpu & Hr & Hun & Hmr & Hmu & Hfin)]]); [discriminate|].
+  rewrite post_errs_mp_reach in Hmr. rewrite post_errs_mp_unreach in Hmu.
+  destruct (judge_of_parse _ _ _ _ _ _ _ _ _ _ _ _ _ Hloc Hloop Hr Hun Hmr Hmu) as (tl & ok & Hfold & Hok & Hj).
+  rewrite Hj in Hmw. cbn [v_must_withdraw verdict_of] in Hmw.
+  destruct (upd_finish_routes _ _ _ _ _ _ _ _ _ _ _ _ Hfin) as (-> & -> & -> & _).
+  destruct (fold_facts (c_two_byte cd) tl u0 [] s (fun k => eq_refl) Hfold) as (F1 & F2 & F3).
+  apply orb_true_iff in Hmw. destruct Hmw as [Hmw|Hmiss]; [apply orb_true_iff in Hmw; destruct Hmw as [Hnok|Hbad]|].
+  - left. apply post_errs_arem. destruct ok; [discriminate|]. intro E. apply Hok in E. discriminate.
+  - left. apply post_errs_mono. apply existsb_exists in Hbad. destruct Hbad as (x & Hin & Hnd).
+    apply filter_In in Hin. destruct Hin as [Hin Hb]. apply negb_true_iff in Hnd. eapply F3; eassumption.
+  - apply andb_true_iff in Hmiss. destruct Hmiss as [Hne Hcond].
+    assert (Hs1 : forall k, seen s k = has_tlv k tl) by (intro k; rewrite F1; apply orb_false_r).
+    apply orb_true_iff in Hcond. destruct Hcond as [Hcond|Hcond].
+    + left. apply post_errs_origin; [|rewrite !Hs1; exact Hcond].
+      destruct (len frame - (23 + wl + al) =? 0) eqn:Erl; [|reflexivity]. cbn [negb orb].
+      cbn [negb] in Hr. injection Hr as <-. cbn [keys map app] in Hne.
+      destruct (u_mp_reach s); [reflexivity|]. cbn [mp_stage] in Hmr. subst mpr. discriminate.
+    + right. apply andb_true_iff in Hcond. destruct Hcond as [Ha1 Hn3].
+      rewrite keys_nil_iff in Ha1. apply negb_true_iff in Ha1. rewrite Ha1.
+      rewrite post_errs_nexthop.
+      rewrite (fold_nexthop (c_two_byte cd) tl u0 s eq_refl Hfold) by (apply negb_true_iff; exact Hn3).
+      unfold mandatory_missing. cbn. rewrite !orb_true_r. reflexivity.
+Qed.
+
+(* ------------------------------------------------ (B) a parsed UPDATE is locatable, and announces what the Spec lists *)
+Definition announced_of (u : pupdate) : list key :=
+  match u with UEor _ => [] | URoutes r mr _ _ _ _ => mpk r ++ mpk mr end.
+
+Lemma upd_finish_eor cd s reach unreach mpr mpu f :
+  upd_finish cd s reach unreach mpr mpu = Ok (UEor f) ->
+  is_nil reach = true /\ match mpr with None => true | Some (_, e, _) => is_nil e end = true.
+Proof.
+  unfold upd_finish. intro H.
+  destruct mpu as [[fam [|e es]]|].
+  - destruct (is_nil reach); [|cbn [andb] in H; apply bind_ok in H; destruct H as (a & _ & H); discriminate].
+    destruct (match mpr with None => true | Some (_, e, _) => is_nil e end);
+      [split; reflexivity|cbn [andb] in H; apply bind_ok in H; destruct H as (a & _ & H); discriminate].
+  - apply bind_ok in H. destruct H as (a & _ & H). discriminate.
+  - apply bind_ok in H. destruct H as (a & _ & H). discriminate.
+Qed.
+
+Lemma mpk_empty mpr : match mpr with None => true | Some (_, e, _) => is_nil e end = true -> mpk mpr = [].
+Proof. destruct mpr as [[[f e] nh]|]; [|reflexivity]. destruct e; [reflexivity|discriminate]. Qed.
+
+Theorem C05_parsed_is_locatable cd hdr frame u :
+  parse_update no_other cd hdr frame = Ok u ->
+  v_locatable (judge cd frame) = true /\ v_announced (judge cd frame) = announced_of u.
+Proof.
+  intro Hp.
+  destruct (parse_update_ok_inv _ _ _ _ Hp)
+    as (wl & wd & c & al & s & arem & Hloc & Hloop &
+        [[Heor ->]|[Heor (reach0 & unreach0 & mpr & mpu & Hr & Hun & Hmr & Hmu & Hfin)]]).
+  - (* IPv4 end-of-RIB: nothing in the frame *)
+    destruct (proj2 (upd_locate_spec no_other no_other_consumes hdr frame) _ _ _ _ Hloc) as (Hal & Hwd & Hlen).
+    assert (al = 0 /\ wl = 0 /\ len c = 0) as (-> & -> & Hc) by lia.
+    assert (c = []) as -> by (destruct c; [reflexivity|rewrite len_cons in Hc; lia]).
+    assert (wd = []) as -> by (destruct wd; [reflexivity|cbn in Hwd; lia]).
+    rewrite (judge_cases _ _ _ _ _ _ _ Hloc). cbn. split; reflexivity.
+  - rewrite post_errs_mp_reach in Hmr. rewrite post_errs_mp_unreach in Hmu.
+    destruct (judge_of_parse _ _ _ _ _ _ _ _ _ _ _ _ _ Hloc Hloop Hr Hun Hmr Hmu) as (tl & ok & Hfold & Hok & Hj).
+    rewrite Hj. cbn [v_locatable v_announced verdict_of]. split; [reflexivity|].
+    destruct u as [f|r' mr' ur' mur' attrs errs].
+    + destruct (upd_finish_eor _ _ _ _ _ _ _ Hfin) as [Hn He].
+      destruct reach0; [|discriminate]. rewrite (mpk_empty _ He). reflexivity.
+    + destruct (upd_finish_routes _ _ _ _ _ _ _ _ _ _ _ _ Hfin) as (_ & -> & -> & _).
+      cbn [announced_of]. f_equal.
+      * destruct reach0; reflexivity.
+      * destruct (match mpr with None => true | Some (_, e, _) => is_nil e end) eqn:E; [|reflexivity].
+        rewrite (mpk_empty _ E). reflexivity.
+Qed.
